@@ -67,7 +67,7 @@ theorem abs_isElemNamed (fuel : Nat) (h : Heap) (n : Id) (tag : Nat) :
   cases hk : h.kind n <;> cases fuel <;> simp [DomTree.abs, kindOf, hk, DomTree.Tree.isElemNamed]
 
 /-- `getElementsByTagName` against the unfolded tree -/
-theorem elements_abs {h : Heap} (ha : NoAlias h) (tag : Nat) : ∀ (fuel : Nat) (n : Id),
+theorem elements_abs {h : Heap} (ha : NoAlias h) (hb : NoAttr2 h) (tag : Nat) : ∀ (fuel : Nat) (n : Id),
     getElementsByTagName fuel h n tag = (DomTree.abs fuel (toLL h) n).elementsByName tag := by
   intro fuel
   induction fuel with
@@ -80,7 +80,8 @@ theorem elements_abs {h : Heap} (ha : NoAlias h) (tag : Nat) : ∀ (fuel : Nat) 
     by_cases hk : h.kind n = .text
     · simp [getElementsByTagName, hk, DomTree.abs, kindOf, DomTree.Tree.elementsByName, DomTree.Tree.descendants]
     · have : kindOf (h.kind n) ≠ .text := fun e => hk ((kindOf_text _).mp e)
-      simp only [getElementsByTagName, hk, if_false, childList_eq ha, DomTree.abs, toLL_kind, toLL_kids, this]
+      simp only [getElementsByTagName, hk, if_false, childList_eq ha, DomTree.abs, toLL_kind, toLL_kids, this, hb n,
+        List.nil_append]
       rw [DomTree.Tree.elementsByName, DomTree.Tree.descendants, descendantsL_map_elems]
       congr 1
       funext c
@@ -127,7 +128,7 @@ theorem abs_isElemNamed_c (fuel : Nat) (h : Heap) (n : Id) (tag : Nat) :
     (DomTree.abs fuel (toLLc h) n).isElemNamed tag = true ↔ (h.kind n = .elem ∧ h.name n = tag) := by
   cases hk : h.kind n <;> cases fuel <;> simp [DomTree.abs, kindOf, hk, DomTree.Tree.isElemNamed]
 
-theorem elements_abs_c (h : Heap) (tag : Nat) : ∀ (fuel : Nat) (n : Id),
+theorem elements_abs_c (h : Heap) (hb : NoAttr2 h) (tag : Nat) : ∀ (fuel : Nat) (n : Id),
     getElementsByTagName fuel h n tag = (DomTree.abs fuel (toLLc h) n).elementsByName tag := by
   intro fuel
   induction fuel with
@@ -140,7 +141,7 @@ theorem elements_abs_c (h : Heap) (tag : Nat) : ∀ (fuel : Nat) (n : Id),
     by_cases hk : h.kind n = .text
     · simp [getElementsByTagName, hk, DomTree.abs, kindOf, DomTree.Tree.elementsByName, DomTree.Tree.descendants]
     · have : kindOf (h.kind n) ≠ .text := fun e => hk ((kindOf_text _).mp e)
-      simp only [getElementsByTagName, hk, if_false, DomTree.abs, toLLc_kind, toLLc_kids, this]
+      simp only [getElementsByTagName, hk, if_false, DomTree.abs, toLLc_kind, toLLc_kids, this, hb n, List.nil_append]
       rw [DomTree.Tree.elementsByName, DomTree.Tree.descendants, descendantsL_map_elems]
       congr 1
       funext c
